@@ -18,9 +18,10 @@
                                                 no-repeat hypothesis; on the witness `Ex.repNp` both paths produce the SAME
                                                 homogenised system.  (Before the fix the last value won: this was the NEG theorem
                                                 `C10_repeated_columns_correlated_differ`.)
-  What remains: the LS-side MODEL of the envelope solver's homogenisation, `Ls.Env.homogenize` on `Problem.dense`
-  (`Lemmas/Ls/AdjDense.rowDense`, built with `=`), still reads a repeated column as last-write-wins (labelled `example`
-  below), so `hom_run_eq_homogenize` / `C10_sparse_path_is_homogenization_run` keep their `nodupRows` / `RowsOK` hypothesis.
+  Round 11: the LS-side MODEL of the envelope solver's homogenisation, `Ls.Env.homogenize` on `Problem.dense`
+  (`Lemmas/Ls/AdjDense.rowDense`), reads a repeated column as the SUM too (labelled `example` below: all three readings
+  agree); `hom_run_eq_homogenize` / `C10_sparse_path_is_homogenization_run` still CARRY their `nodupRows` / `RowsOK`
+  hypothesis (no longer needed for the dense reading; removing it from the statements is the open follow-up).
   Proofs: `Lemmas/HomRunBridge.lean`, `Lemmas/HomEnvBridge.lean`, `Props/C01/InputGap.lean`, `Props/C01/NetFacade.lean`,
   `Props/C03/Net.lean`.
 -/
@@ -254,18 +255,16 @@ theorem C10_repeated_columns_agree (np : NetProblem K) (mat : SMat K) (nonz : Ar
 
 end repeatedCorr
 
-/-- what REMAINS of the difference (an evaluated instance, not a theorem about the code): the LS-side model of the envelope
-    solver's homogenisation, `Ls.Env.homogenize` on `Problem.dense` (`AdjDense.rowDense`, built with `=`), still reads the
-    repeated column of `Ex.repNp` as last-write-wins and homogenises `[[1,0],[0,1]]` to `[[1,0],[−1,1]]`, while
-    `Homogenization::run` (and `prepareProjectEquations()`) now give `[[0,0],[0,1]]`.  This is the case `RowsOK` /
-    `SMat.nodupRows` still excludes in `hom_run_eq_homogenize`, `C03_net_homogenisations_agree`, `C10_homogenization_run`. -/
+/-- all THREE readings of the repeated column of `Ex.repNp` agree (evaluated instance): the LS-side model of the envelope
+    solver's homogenisation (`Ls.Env.homogenize` on `Problem.dense`, a SUM since round 11), `prepareProjectEquations()` and
+    `Homogenization::run` give `[[0,0],[0,1]]`, right-hand side `(1,1)` -/
 example :
     (Env.homogenize (Net.toProblem Ex.repNp)).toOption.map (fun h => (h.At, h.bt))
-        = some (#[#[1, 0], #[-1, 1]], #[1, 1]) ∧
+        = some (#[#[0, 0], #[0, 1]], #[1, 1]) ∧
     (Net.prepare Ex.repNp).toOption.map (fun h => (h.Ad, h.bd)) = some (#[#[0, 0], #[0, 1]], #[1, 1]) ∧
     (Cov.Hom.run (Cov.bdTol : Rat) Ex.repMat Ex.repCov Ex.repNp.rhs).toOption.map
         (fun o => (@SMat.toRows Rat ⟨0⟩ o.sm, o.pr)) = some ([[], [(2, 1)]], #[1, 1]) :=
-  ⟨Ex.rep_ls_model_last_wins, Ex.rep_dense_path.2, Ex.rep_sparse_path⟩
+  ⟨Ex.rep_ls_model_sums, Ex.rep_dense_path.2, Ex.rep_sparse_path⟩
 
 /-! ### non-vacuity of the two positive statements about repeated columns (over ℝ) -/
 
